@@ -116,7 +116,9 @@ pub fn run_plan(def: &CheckDef, fam: &Family, plan: &Plan, materialise: bool) ->
             }
             let detail = format!("panic in {}() at {}:{}: {}", opname, p.file.replace("/repo/", ""), p.line, p.message);
             if (def.panic_is_violation)(p) {
-                violation = Some(Violation { property: def.property.to_string(), clause: "panic".into(), detail, at_call: *call });
+                // the call site is part of the identity: minimisation must keep the same panic
+                let site = format!("panic@{}:{}", p.file.rsplit("/src/").next().unwrap_or(&p.file), p.line);
+                violation = Some(Violation { property: def.property.to_string(), clause: site, detail, at_call: *call });
             } else {
                 aborted = Some(detail);
             }
@@ -256,7 +258,9 @@ pub fn run_check(def: &CheckDef, thorough: bool, seed: u64) -> CheckResult {
                 let fam = def.family_of(run);
                 let plan = (fam.gen)(seed, run, thorough);
                 watchdog::set_run(run + 1);
-                match run_plan(def, fam, &plan, false) {
+                let result = std::panic::catch_unwind(std::panic::AssertUnwindSafe(|| run_plan(def, fam, &plan, false)))
+                    .unwrap_or_else(|_| Err("panic inside the harness (see HARNESS PANIC line on stderr)".to_string()));
+                match result {
                     Ok(v) => {
                         local.evaluations += 1;
                         *local.per_family.entry(fam.name.to_string()).or_insert(0) += 1;
@@ -536,7 +540,8 @@ fn report_violation(def: &CheckDef, seed: u64, run: u64, thorough: bool, first: 
     let vm = run_plan(def, fam, &mat, false)?;
     mat.expect = Some(Expect { violation: format!("{}/{}", def.property, min_viol.clause), at_call: min_viol.at_call, digest: format!("{:016x}", vm.digest) });
     let dir = replay_dir(def.property);
-    let path = format!("{}/{}-{}-s{}-r{}.json", dir, fam.name, min_viol.clause, seed, run);
+    let clause_name: String = min_viol.clause.chars().map(|c| if c.is_ascii_alphanumeric() || c == '_' || c == '-' || c == '.' { c } else { '_' }).collect();
+    let path = format!("{}/{}-{}-s{}-r{}.json", dir, fam.name, clause_name, seed, run);
     mat.save(&path)?;
     println!("minimised violation: [{}] {}", min_viol.clause, min_viol.detail);
     // fresh-process replay
